@@ -65,6 +65,9 @@ def run_jobs(module, fn_name, jobs, procs=None, deadline=None):
         for a in args:
             out.append(_run_job(a))
         return out
+    # parse the MIR and build the native driver once in the parent: the forked workers inherit both
+    from .. import engine as _engine
+    _engine.load(); driver.e3_build()
     ctx = multiprocessing.get_context('fork')
     with ctx.Pool(procs, maxtasksperchild=50) as pool:
         for r in pool.imap_unordered(_run_job, args, chunksize=1):
